@@ -15,7 +15,7 @@ EXTENDS Naturals, Sequences, FiniteSets, TLC, Json
 CONSTANTS Scripts, Subs, MaxLen, ClearResets, Writes, Reads, SubWrites, SubReads
 
 Slots == {"feedback", "suppressions", "hiddens", "hooks", "tooldata", "formatter", "overrides", "pools", "question_pools",
-          "sandbox_mocks", "tracer", "sections", "builtin_modules", "class_hooks", "type_tables", "real_modules", "fresh_modules", "coverage_data", "vpl_maximum", "student_modules", "gradescope_maximum"}
+          "sandbox_mocks", "tracer", "sections", "builtin_modules", "class_hooks", "type_tables", "real_modules", "fresh_modules", "coverage_data", "vpl_maximum", "student_modules", "gradescope_maximum", "mock_tables"}
 \* slots whose persistence is documented (Report.clear: "will not affect class hooks")
 Documented == {"class_hooks"}
 
